@@ -103,6 +103,10 @@ def run(tier):
         # three operators, the last one offends
         body = "\tvar a: i32 = 1;\n\tvar b: i32 = 2;\n\tvar c: i64 = 3;\n\tvar x: i32 = a %s b\n\t\t%s a\n\t\t%s c; // HERE\n" % (op, op, op)
         marked.append(("od%d" % ci, "known-offender:551", "fn main()\n{\n" + body + "}\n"))
+    # the argument that lacks its `&` is the offender (E513), not the name of the called function
+    marked.append(("o513a", "span-text:513:total", "fn increment(counter: &i32)\n{\n\tcounter = counter + 1;\n}\nfn main()\n{\n\tvar total: i32 = 0;\n\tincrement(total);\n}\n"))
+    marked.append(("o513b", "known-offender:513", "fn swap(a: &i32, b: &i32)\n{\n}\nfn main()\n{\n\tvar p: i32 = 0;\n\tvar q: i32 = 1;\n\tswap(&p,\n\t\tq); // HERE\n}\n"))
+    marked.append(("o512b", "known-offender:512", "fn take(a: i32, b: bool)\n{\n}\nfn main()\n{\n\tvar p: i32 = 0;\n\ttake(p,\n\t\tp); // HERE\n}\n"))
     # the returned value is the offender (E333: the value does not have the declared return type)
     marked.append(("orv", "known-offender:333", "fn foo() -> i32\n{\n\tvar x: bool = true;\n\treturn: x // HERE\n}\nfn main()\n{\n}\n"))
     marked.append(("orv2", "known-offender:333", "fn foo(a: i32) -> bool\n{\n\tif a == 1\n\t{\n\t\ta = 2;\n\t}\n\treturn: a // HERE\n\n\n}\nfn main()\n{\n}\n"))
@@ -188,6 +192,27 @@ def run(tier):
                 bad += 1
                 ck.violation("span-misses-offender:" + ("crlf" if "\r" in src else "lf"), "E402 for the undefined name 'qq7' does not cover that name", "source:\n%s\ndiagnostics: %s" % (src, f[1]))
     ck.log("diag: %d inputs, verdicts %s, %d location problems, %d distinct codes" % (len(allc), dict(stats), bad, len(codes_seen)))
+    # the second generation's diagnostics: the line of a lexical error is the line its span starts on, with LF and with
+    # CRLF line ends, after comments, strings and blank lines
+    dl = []
+    for li, body in enumerate(["fn main()\n{\n\tvar x = 1;\n\tvar y = $;\n}\n", "// c\n\n\nconst A: i32 = 1;\nconst B: i32 = 12ab;\n", "fn f()\n{\n\tvar s = \"a b\";\n\n\tvar t = 'ab';\n\tvar u = 0x;\n}\n",
+                               "\n\n\n\n@\n", "fn f()\n{\n}\n\n\nfn g()\n{\n\tvar c = \"\\q\";\n}\n"]):
+        for eol in ("\n", "\r\n"):
+            dl.append(("dl%d%s" % (li, "c" if eol != "\n" else "l"), body.replace("\n", eol)))
+    dimpl = C.run_harness("lex", dl, ck.work + "/deltalines", timeout=600)
+    dbad = 0
+    for cid, src in dl:
+        f = dimpl.get(cid, ["missing", "missing"])
+        for gen, line in (("first", f[0]), ("second", f[1] if len(f) > 1 else "missing")):
+            for t in line.split("|")[0].split(";"):
+                parts = t.split(" ")
+                if len(parts) >= 7 and parts[0] == "Error":
+                    start = int(parts[3]); ln = int(parts[5])
+                    real = 1 + (src.encode("utf-8")[:start].count(b"\n") if gen == "second" else src[:start].count("\n"))
+                    if ln != real:
+                        dbad += 1; bad += 1
+                        ck.violation("bad-location:lexer-line:%s:%s" % (gen, "crlf" if "\r" in src else "lf"), "%s-generation lexer: E%s has a span that starts on line %d but reports line %d" % (gen, parts[1], real, ln), "source: %r\ntokens: %s" % (src, line[:600]))
+    ck.log("lexical errors of both lexers, LF and CRLF: %d inputs, %d line problems" % (len(dl), dbad))
     # determinism: the same inputs in three fresh processes
     det = [(c[0], c[2]) for c in allc[: (300 if tier == "quick" else 5000)]]
     multimod = []
